@@ -12,8 +12,9 @@ with the disagreeing input as the replay.
 
 Refinements proved (all inputs): quoted strings in every form (`closing_quote_refines`,
 `string_literal_refines`), Oracle q-strings for all 223 delimiters, dollar strings (both forms),
-end-of-line comments, bracket words, the verdict cascade (`cascade_refines`). Not yet theorems: the
-number grammar, the word split, the `/* */` lexer's evil classification (`conformance_statement`). -/
+end-of-line comments, bracket words, `/* … */` comments with their class (`slash_comment_refines`: first `*/`
+at or after the opener; class `X` iff a nested `/*` or `/*!`; `slash_operator_refines`), the verdict cascade
+(`cascade_refines`). Not yet theorems: the number grammar, the word split (`conformance_statement`). -/
 namespace LibInj.Properties.C06
 open LibInj LibInj.Sqli LibInj.Spec
 
@@ -72,5 +73,95 @@ def conformance_statement : Prop :=
   ∀ (rest : Bytes), rest ≠ [] → ∃ r, parseNumber rest = .ok r ∧ 1 ≤ r.next ∧ r.next ≤ rest.length
 
 example : closingQuote [97, 92, 39, 98, 39, 99] 39 = some 4 := by decide
+
+/-- whether a `/* … */` comment whose terminator `*/` starts `i` bytes after the opening `/*` is "evil" (class `X`):
+a nested `/*` in its text up to and including the terminator's `*`, or `!` right after the opener (MySQL `/*!`) -/
+def slashEvil (rest : Bytes) (i : Nat) : Bool := contains ((rest.drop 2).take (i + 1)) [47, 42] || rest[2]? == some 33
+
+theorem slash_comment_refines (rest : Bytes) (h1 : rest[1]? = some 42) :
+    (∀ i, indexOf (rest.drop 2) [42, 47] = some i → ∃ r, parseSlash rest = .ok r ∧ r.next = i + 4 ∧
+        r.tok.cat = (if slashEvil rest i then 88 else 99) ∧ r.tok.pos = 0 ∧ r.tok.len = clip (i + 4) ∧
+        isPrefix [42, 47] (rest.drop (2 + i)) = true ∧ ∀ j < i, isPrefix [42, 47] (rest.drop (2 + j)) = false) ∧
+    (indexOf (rest.drop 2) [42, 47] = none → ∃ r, parseSlash rest = .ok r ∧ r.next = rest.length ∧
+        r.tok.cat = (if rest[2]? == some 33 then 88 else 99)) := by
+  have hn2 : 2 ≤ rest.length := by
+    rcases Nat.lt_or_ge 1 rest.length with h | h
+    · omega
+    · rw [List.getElem?_eq_none h] at h1; cases h1
+  have hcond : (g (1 == rest.length) <||> byteNe rest 1 42) = .ok false := by
+    have : (1 == rest.length) = false := by simp; omega
+    simp [orM, g, byteNe, at', h1, this, bind, Except.bind, pure, Except.pure, toBool]
+  constructor
+  · intro i hi
+    have hchar := (indexOf_some_iff _ _ _).mp hi
+    have hile : i ≤ (rest.drop 2).length := hchar.1
+    have hpre := hchar.2.1
+    -- the terminator lies inside the input
+    have hlen2 : i + 2 ≤ (rest.drop 2).length := by
+      have := isPrefix_length _ _ hpre
+      simp only [List.length_drop, List.length_cons, List.length_nil] at this ⊢
+      omega
+    simp only [List.length_drop] at hlen2 hile
+    unfold parseSlash
+    simp only [hcond, bind, Except.bind, pure, Except.pure, Bool.false_eq_true, ↓reduceIte, sliceFrom_ok rest 2 hn2, hi]
+    rw [slice_ok rest 2 (2 + i + 1) (by omega) (by omega)]
+    simp only [show 2 + i + 1 - 2 = i + 1 by omega]
+    have h2n : 2 < rest.length := by omega
+    have hat : at' rest 2 = .ok rest[2] := at'_ok h2n
+    have hg2 : rest[2]? = some rest[2] := List.getElem?_eq_getElem h2n
+    by_cases hc : contains ((rest.drop 2).take (i + 1)) [47, 42] = true
+    · simp only [hc, ↓reduceIte]
+      rw [assign_ok _ _ _ _ _ (by have := clip_le (2 + i + 2); omega)]
+      refine ⟨_, rfl, by simp; omega, by simp [slashEvil, hc], rfl, by simp; congr 1; omega, ?_, ?_⟩
+      · rw [← List.drop_drop]; exact hpre
+      · intro j hj; rw [← List.drop_drop]; exact hchar.2.2 j hj
+    · simp only [hc, Bool.false_eq_true, ↓reduceIte, h2n, hat]
+      rw [assign_ok _ _ _ _ _ (by have := clip_le (2 + i + 2); omega)]
+      refine ⟨_, rfl, by simp; omega, ?_, rfl, by simp; congr 1; omega, ?_, ?_⟩
+      · have hcf : contains ((rest.drop 2).take (i + 1)) [47, 42] = false := by simpa using hc
+        simp [slashEvil, hcf, hg2]
+      · rw [← List.drop_drop]; exact hpre
+      · intro j hj; rw [← List.drop_drop]; exact hchar.2.2 j hj
+  · intro hn
+    unfold parseSlash
+    simp only [hcond, bind, Except.bind, pure, Except.pure, Bool.false_eq_true, ↓reduceIte, sliceFrom_ok rest 2 hn2, hn]
+    by_cases h2n : 2 < rest.length
+    · have hat : at' rest 2 = .ok rest[2] := at'_ok h2n
+      have hg2 : rest[2]? = some rest[2] := List.getElem?_eq_getElem h2n
+      simp only [h2n, ↓reduceIte, hat]
+      rw [assign_ok _ _ _ _ _ (clip_le _)]
+      exact ⟨_, rfl, rfl, by simp [hg2]⟩
+    · simp only [h2n, ↓reduceIte]
+      rw [assign_ok _ _ _ _ _ (clip_le _)]
+      refine ⟨_, rfl, rfl, ?_⟩
+      rw [List.getElem?_eq_none (by omega)]
+      simp
+
+/-- `/` not followed by `*` is an operator -/
+theorem slash_operator_refines (rest : Bytes) (hne : rest ≠ []) (h1 : rest[1]? ≠ some 42) : parseSlash rest = parseOperator1 rest := by
+  unfold parseSlash
+  have hcond : (g (1 == rest.length) <||> byteNe rest 1 42) = .ok true := by
+    by_cases hl : 1 == rest.length
+    · simp [orM, g, hl, bind, Except.bind, pure, Except.pure, toBool]
+    · have hl' : (1 == rest.length) = false := by simpa using hl
+      cases hr : rest[1]? with
+      | none =>
+        exfalso
+        have : rest.length ≤ 1 := by
+          rcases Nat.lt_or_ge 1 rest.length with h | h
+          · rw [List.getElem?_eq_getElem h] at hr; cases hr
+          · exact h
+        have h0 : ¬ 1 = rest.length := by simpa using hl'
+        have : rest.length = 0 := by omega
+        exact hne (List.length_eq_zero_iff.mp this)
+      | some c =>
+        have hc : c ≠ 42 := by intro e; rw [hr, e] at h1; exact h1 rfl
+        simp [orM, g, hl', byteNe, at', hr, hc, bind, Except.bind, pure, Except.pure, toBool]
+  simp only [hcond, bind, Except.bind, pure, Except.pure, ↓reduceIte]
+
+/-- non-vacuity: `/*a/*b*/c` — terminator 6 bytes after the opener, nested `/*` makes it class `X`; `/*!1*/` is class `X`
+by its `!`; `/*a*/` is a plain comment -/
+example : slashEvil (bs "/*a/*b*/c") 4 = true ∧ slashEvil (bs "/*!1*/") 2 = true ∧ slashEvil (bs "/*a*/") 1 = false ∧
+    indexOf ((bs "/*a/*b*/c").drop 2) [42, 47] = some 4 := by decide +kernel
 
 end LibInj.Properties.C06
